@@ -92,7 +92,8 @@ def run_case(case, want_trace=False):
         def peer_handler(peer, t, src, f, raw):
             # acknowledge CON responses so that separate responses are not retransmitted for ever
             if f and f["type"] == R.CON and f["code"] != 0 and case.get("peer_acks", True):
-                peer.send(src, R.msg(R.ACK, 0, f["mid"]))
+                # (optionally late: meanwhile the server has an exchange of its own outstanding towards the peer)
+                peer.send(src, R.msg(R.ACK, 0, f["mid"]), case.get("peer_ack_delay", 0.0))
 
         peer = net.add_raw("peer", *PEER, handler=peer_handler)
         log = ReqLog(net)
@@ -297,7 +298,11 @@ def run_case(case, want_trace=False):
                             if resp_mids:
                                 bad("suppressed-response-sent", R.describe(resp_mids[0]["fields"]))
                         else:
-                            if len(seps) != 1 or len(resp_mids) != 1:
+                            slow_peer = (not case.get("peer_acks", True)) or case.get("peer_ack_delay")
+                            if slow_peer and not resp_mids:
+                                # held back behind an earlier CON the peer has not acknowledged (yet): NSTART, C14's subject
+                                labels.add("separate-response-held-back")
+                            elif len(seps) != 1 or len(resp_mids) != 1:
                                 bad("separate-response-count", "%d (+%d ACK-typed)" % (len(seps), len(resp_mids) - len(seps)))
                             else:
                                 sp = seps[0]
@@ -308,7 +313,7 @@ def run_case(case, want_trace=False):
                                 if sp["fields"]["type"] not in (R.CON, R.NON):
                                     bad("separate-response-type", R.describe(sp["fields"]))
                                 # (a separate CON response may wait a few ms behind another unacknowledged CON to the same peer: NSTART)
-                                if not (t_arr + delay - 1e-6 <= sp["t"] <= t_arr + delay + 0.05):
+                                if not (t_arr + delay - 1e-6 <= sp["t"] <= t_arr + delay + (0.05 if not slow_peer else 100.0)):
                                     bad("separate-response-time", "%.6f, handler finished at %.6f" % (sp["t"], t_arr + delay))
                 else:  # NON request
                     if same_mid:
@@ -405,6 +410,11 @@ def _sequence(draw):
     case = {"msgs": msgs, "rng": draw(st.integers(0, 99))}
     if draw(st.booleans()):
         case["mid0"] = draw(st.sampled_from([0x1FFE, 0x2000, 0x2001, 0xFFFF]))
+    pa = draw(st.sampled_from(["prompt", "prompt", "late", "late", "never"]))
+    if pa == "late":
+        case["peer_ack_delay"] = draw(st.sampled_from([0.3, 1.0, 2.5]))
+    elif pa == "never":
+        case["peer_acks"] = False
     if draw(st.integers(0, 3)) == 0:
         case["mc_requests"] = [{"t": draw(st.sampled_from([0.0, 0.05])), "tuning": draw(st.sampled_from(["reliable", "unreliable", "default", "forced-con"])), "v6": draw(st.booleans())}]
     return case
@@ -438,7 +448,7 @@ def build(tier):
     return CheckSpec(
         [
             Sub("table", run_case, cases=cases_table, exhaustive=True),
-            Sub("sequences", run_case, strategy=_sequence, budget={"quick": 1500, "thorough": 40000}, max_wall={"quick": 50, "thorough": 1800}),
+            Sub("sequences", run_case, strategy=_sequence, budget={"quick": 8000, "thorough": 60000}, max_wall={"quick": 50, "thorough": 1800}),
         ],
         RULE,
         assumptions=[
